@@ -44,8 +44,7 @@ class ListWrapper(typing.MutableSequence[T]):
     def __init__(self, *args: typing.Iterable[T]):
         self._data: typing.List[T] = []
         for values in args:
-            for value in values:
-                self.append(value)
+            self.extend(values)
 
     def _add(self, value: T) -> None:
         pass  # pragma: no cover
@@ -151,6 +150,12 @@ class ListWrapper(typing.MutableSequence[T]):
     # extend is not in every version of Python 3, so list wrapper adds it here
     # itself.
     def extend(self, other: typing.Iterable[T]) -> None:
+        if isinstance(other, ListWrapper):
+            # Take a snapshot first: when ``other`` is another owning list
+            # (e.g. ``ir.modules.extend(other_ir.modules)``), appending a
+            # value removes it from ``other`` while ``other`` is being
+            # iterated, and every second element would be skipped.
+            other = list(other)
         for v in other:
             self.append(v)
 
@@ -175,9 +180,8 @@ _SetWrapperSelf = typing.TypeVar(  # type: ignore[misc]
 class SetWrapper(typing.MutableSet[T]):
     def __init__(self, *args: typing.Iterable[T]):
         self._data: typing.Set[T] = set()
-        for arg in args:
-            for v in arg:
-                self.add(v)
+        if args:
+            self.update(*args)
 
     @classmethod
     def _from_iterable(  # type: ignore[override]
@@ -226,9 +230,22 @@ class SetWrapper(typing.MutableSet[T]):
     def __ior__(  # type: ignore
         self: _SetWrapperSelf, other: typing.AbstractSet[T]
     ) -> _SetWrapperSelf:
+        if isinstance(other, SetWrapper):
+            # Snapshot: adding a value owned by ``other`` removes it from
+            # ``other`` while ``other`` is being iterated.
+            other = set(other)
         for value in other:
             self.add(value)
         return self
+
+    def __ixor__(  # type: ignore
+        self: _SetWrapperSelf, other: typing.AbstractSet[T]
+    ) -> _SetWrapperSelf:
+        if isinstance(other, SetWrapper):
+            # Snapshot, as in __ior__: values owned by ``other`` leave it as
+            # they are added here.
+            other = set(other)
+        return super().__ixor__(other)  # type: ignore
 
     def pop(self) -> T:
         it = iter(self)
@@ -248,6 +265,10 @@ class SetWrapper(typing.MutableSet[T]):
     # For whatever reason, update isn't included as part of abc.MutableSet.
     def update(self, *others: typing.Iterable[T]) -> None:
         for other in others:
+            if isinstance(other, SetWrapper):
+                # Snapshot: the elements of another owning set leave it as
+                # they are added here.
+                other = set(other)
             for v in other:
                 self.add(v)
 
